@@ -2,14 +2,16 @@ package main
 
 // Mechanism B: long random request histories (sequential and concurrent)
 // against the real LRU / map cache behind the real server, recorded as
-// ndjson and validated by TLC against spec/ApqTrace.tla.
+// ndjson. All recorded histories (these and the replays of mechanism A) are
+// validated by TLC against the PROPERTY level (spec/ApqPropTrace.tla: the
+// verdict); the random histories are also compared with the implementation
+// level (spec/ApqTrace.tla: drift only).
 
 import (
 	"bytes"
 	"encoding/json"
 	"fmt"
 	"math/rand"
-	"os"
 	"path/filepath"
 	"sort"
 	"strings"
@@ -29,12 +31,15 @@ var (
 	bBadVers = []string{"2", "0", "absent", "neg", "big"}
 )
 
+// constsJSON: the union of the alphabets of mechanisms A and B.
 func constsJSON() []byte {
+	texts := append(append([]string{}, bTexts...), "bad")
+	wrong := append(append([]string{}, bWrong...), "x:rand")
 	h := map[string]string{}
-	for _, t := range bTexts {
+	for _, t := range texts {
 		h[t] = "h:" + t
 	}
-	b, _ := json.Marshal(map[string]any{"texts": bTexts, "valid": bValid, "hashOf": h, "wrong": bWrong,
+	b, _ := json.Marshal(map[string]any{"texts": texts, "valid": bValid, "hashOf": h, "wrong": wrong,
 		"malKinds": malAll, "malWithHash": malWithH, "badVers": bBadVers})
 	return b
 }
@@ -110,9 +115,12 @@ func genReq(rnd *rand.Rand) AReq {
 // history is one recorded history.
 type history struct {
 	ID      string
+	Mech    string
 	Rig     rigOpts
 	Method  string
 	Workers int
+	Drifted bool // mechanism A: left the implementation-level machine somewhere
+	Bad     bool // leaves the property level somewhere (set by validateProp)
 	cc      *conc
 	Steps   []replayStep // in linearisation order, Got = observation
 }
@@ -126,8 +134,9 @@ type event struct {
 
 // record runs one random history of n requests (workers > 1: concurrently)
 // and returns it in linearisation order: a request that touched the cache
-// is placed at its (single) cache operation, one that did not at the cache
-// state current when it completed.
+// is placed at its last cache operation (state before = content before its
+// first operation, state after = content after its last), one that did not
+// at the cache state current when it completed.
 func record(id string, ro rigOpts, method string, n, workers int, seed int64) (*history, error) {
 	rnd := rand.New(rand.NewSource(seed))
 	cc := newConc(rnd, bTexts, bValid, bWrong, method)
@@ -136,7 +145,8 @@ func record(id string, ro rigOpts, method string, n, workers int, seed int64) (*
 		return nil, err
 	}
 	defer rg.Close()
-	h := &history{ID: id, Rig: ro, Method: method, Workers: workers, cc: cc}
+	h := &history{ID: id, Mech: fmt.Sprintf("B: recorded random history (%d client goroutines), in linearisation order", workers),
+		Rig: ro, Method: method, Workers: workers, cc: cc}
 	var mu sync.Mutex
 	var evs []event
 	var firstErr error
@@ -159,18 +169,13 @@ func record(id string, ro rigOpts, method string, n, workers int, seed int64) (*
 			return
 		}
 		ev := event{nonOp: 1, seq: seq}
+		pre := snap
 		o.mu.Lock()
-		nops := len(o.Ops)
-		if nops == 1 {
-			ev.seq, ev.nonOp, snap = o.Seq, 0, o.Snap
+		if len(o.Ops) > 0 {
+			ev.seq, ev.nonOp, snap, pre = o.Seq, 0, o.Snap, o.PreSnap
 		}
 		o.mu.Unlock()
-		got := c.abstract(ro.Kind, ro.Cap, rp, o, snap)
-		if nops > 1 {
-			// more than one cache operation per request: not linearisable at one
-			// point; no specification outcome has two operations either
-			got.Out.Class = "inconsistent:request performed several cache operations"
-		}
+		got := c.abstract(ro.Kind, ro.Cap, rp, o, pre, snap)
 		ev.step = replayStep{Req: req, Wire: w, Got: &got}
 		mu.Lock()
 		counter++
@@ -220,6 +225,14 @@ func record(id string, ro rigOpts, method string, n, workers int, seed int64) (*
 	return h, nil
 }
 
+func yn(b bool) string {
+	if b {
+		return "y"
+	}
+	return "n"
+}
+
+// lines renders the history for both trace specifications.
 func (h *history) lines() [][]byte {
 	var out [][]byte
 	b, _ := json.Marshal(map[string]any{"e": "Reset", "kind": h.Rig.Kind, "cap": h.Rig.Cap, "id": h.ID})
@@ -227,26 +240,135 @@ func (h *history) lines() [][]byte {
 	for _, s := range h.Steps {
 		g := s.Got
 		b, _ := json.Marshal(map[string]any{"e": "Req", "req": s.Req,
-			"out":  map[string]any{"submit": g.Out.Submit, "class": g.Out.Class, "ops": normOps(g.Out.Ops)},
-			"ents": g.State.Ents, "order": g.State.Order})
+			"out": map[string]any{"submit": g.Out.Submit, "exec": g.Out.Exec, "class": g.Out.Class, "ops": normOps(g.Out.Ops)},
+			"pre": g.Pre.Ents, "ents": g.State.Ents, "order": g.State.Order, "chg": yn(g.Chg), "boundok": yn(g.BoundOK)})
 		out = append(out, b)
 	}
 	return out
 }
 
-// validate checks all histories with TLC (ApqTrace). A rejected history is
-// reported and validation continues with the histories after it.
-func (rep *reporter) validate(hs []*history, scratch string) (events int, err error) {
+func (h *history) doc(upto int) replayDoc {
+	d := replayDoc{Mechanism: h.Mech, Rig: h.Rig, Texts: h.cc.Text, Hashes: h.cc.Hash, FailAt: upto}
+	d.Steps = append(d.Steps, h.Steps[:upto]...)
+	return d
+}
+
+type badLine struct {
+	Bad     int             `json:"bad"`
+	Rules   map[string]bool `json:"rules"`
+	BoundOK string          `json:"boundok"`
+}
+
+// propRun validates a batch of trace lines against the property level and
+// returns the lines TLC printed as leaving it.
+func propRun(lines [][]byte, scratch string) ([]badLine, *vlib.TLCResult, error) {
+	res, err := vlib.RunTLC(vlib.TLCOpts{Module: "ApqPropTrace", Config: "ApqPropTrace.cfg", Workers: 1, DFS: true,
+		Data:    map[string][]byte{"trace.ndjson": append(bytes.Join(lines, []byte("\n")), '\n'), "consts.json": constsJSON()},
+		Scratch: scratch, Timeout: 15 * time.Minute})
+	if err != nil {
+		return nil, nil, err
+	}
+	if !res.OK {
+		return nil, res, fmt.Errorf("TLC could not follow the recorded behaviour (ApqPropTrace must never block):\n%s", tailStr(res.Output, 3000))
+	}
+	var bad []badLine
+	for _, ln := range res.Printed {
+		var s string
+		if json.Unmarshal([]byte(ln), &s) != nil || !strings.HasPrefix(s, `{"bad":`) {
+			continue
+		}
+		var b badLine
+		if err := json.Unmarshal([]byte(s), &b); err != nil {
+			return nil, res, fmt.Errorf("bad-line report %q: %v", s, err)
+		}
+		bad = append(bad, b)
+	}
+	return bad, res, nil
+}
+
+// validateProp is the VERDICT: every recorded history is checked by TLC
+// against Apq!PropRel. For each history that leaves the property level the
+// first offending request is reported as a violation.
+func (rep *reporter) validateProp(hs []*history, scratch string) (badHistories, events int, err error) {
+	for start, round := 0, 0; start < len(hs); round++ {
+		var lines [][]byte
+		var owner, local []int
+		end := start
+		for end < len(hs) {
+			ls := hs[end].lines()
+			if len(lines) > 0 && len(lines)+len(ls) > 60000 {
+				break
+			}
+			for i, ln := range ls {
+				lines = append(lines, ln)
+				owner = append(owner, end)
+				local = append(local, i)
+			}
+			end++
+		}
+		bad, res, err := propRun(lines, filepath.Join(scratch, fmt.Sprintf("prop%d", round)))
+		if err != nil {
+			return badHistories, events, err
+		}
+		rep.c.AddStates(res.Distinct, res.Generated)
+		events += len(lines)
+		first := map[int]badLine{}
+		for _, b := range bad {
+			if b.Bad < 1 || b.Bad > len(lines) {
+				return badHistories, events, fmt.Errorf("bad-line report out of range: %d", b.Bad)
+			}
+			hi := owner[b.Bad-1]
+			if f, ok := first[hi]; !ok || b.Bad < f.Bad {
+				first[hi] = b
+			}
+		}
+		for hi := start; hi < end; hi++ {
+			b, isBad := first[hi]
+			if !isBad {
+				rep.c.AddTraces(1)
+				continue
+			}
+			badHistories++
+			h := hs[hi]
+			h.Bad = true
+			stepIdx := local[b.Bad-1] - 1 // line 0 of a history is its Reset
+			st := h.Steps[stepIdx]
+			var failed []string
+			for k, v := range b.Rules {
+				if !v {
+					failed = append(failed, k)
+				}
+			}
+			if b.BoundOK != "y" && b.Rules["bound"] {
+				failed = append(failed, "bound")
+			}
+			sort.Strings(failed)
+			doc := h.doc(stepIdx + 1)
+			doc.Rules = b.Rules
+			detail := fmt.Sprintf("%s\ncache=%s cap=%d, request %d of history %s: %s\n  sent: %s %s%s\n  cache before: %s\n  real server: %s\n  C15 rules violated: %v (bound: an entry whose text does not hash to its key; hashonly/submit: executes a text never sent with that hash, or answers neither that text nor PersistedQueryNotFound; mismatch: text does not match hash yet not rejected / executed / cache changed; register: entry whose pair was never sent together; exec: executed text differs from the text handed on)",
+				h.Mech, h.Rig.Kind, h.Rig.Cap, stepIdx+1, h.ID, mustJSON(st.Req), st.Wire.Method, st.Wire.Query, st.Wire.Body,
+				mustJSON(st.Got.Pre.Ents), mustJSON(st.Got), failed)
+			if st.Got.BoundEx != "" {
+				detail += "\n  " + st.Got.BoundEx
+			}
+			rep.violate("P:"+strings.Join(failed, "+")+":"+st.Req.form(), detail, doc)
+		}
+		start = end
+	}
+	return badHistories, events, nil
+}
+
+// compareImpl compares the random histories with the IMPLEMENTATION-level
+// machine (ApqTrace). A rejection is implementation-level drift: counted and
+// described, never a verdict. Stops after 3 drifting histories.
+func (rep *reporter) compareImpl(hs []*history, scratch string) (accepted, unchecked int, err error) {
 	consts := constsJSON()
 	remaining := hs
 	diags := 0
 	for round := 0; len(remaining) > 0; round++ {
 		if diags >= 3 {
-			// enough evidence: every further rejection costs two TLC runs
-			fmt.Fprintf(os.Stderr, "  [tlc] %d histories rejected; %d histories left unvalidated\n", diags, len(remaining))
-			return events, nil
+			return accepted, len(remaining), nil
 		}
-		// batch at most ~60000 lines per TLC run
 		var buf bytes.Buffer
 		var owner []int
 		nb := 0
@@ -264,19 +386,18 @@ func (rep *reporter) validate(hs []*history, scratch string) (events int, err er
 		}
 		res, err := vlib.RunTLC(vlib.TLCOpts{Module: "ApqTrace", Config: "ApqTrace.cfg", Workers: 1, DFS: true,
 			Data:    map[string][]byte{"trace.ndjson": buf.Bytes(), "consts.json": consts},
-			Scratch: filepath.Join(scratch, fmt.Sprintf("tv%d", round)), Timeout: 15 * time.Minute})
+			Scratch: filepath.Join(scratch, fmt.Sprintf("impl%d", round)), Timeout: 15 * time.Minute})
 		if err != nil {
-			return events, err
+			return accepted, len(remaining), err
 		}
 		rep.c.AddStates(res.Distinct, res.Generated)
 		if res.OK {
-			rep.c.AddTraces(int64(nb))
-			events += len(owner)
+			accepted += nb
 			remaining = remaining[nb:]
 			continue
 		}
 		if res.RejectedAt == 0 || res.RejectedAt > len(owner) {
-			return events, fmt.Errorf("TLC failed on the recorded traces without a trace rejection:\n%s", tailStr(res.Output, 3000))
+			return accepted, len(remaining), fmt.Errorf("TLC failed on the recorded traces without a trace rejection:\n%s", tailStr(res.Output, 3000))
 		}
 		idx := owner[res.RejectedAt-1]
 		first := res.RejectedAt - 1
@@ -284,43 +405,31 @@ func (rep *reporter) validate(hs []*history, scratch string) (events int, err er
 			first--
 		}
 		local := res.RejectedAt - first // 1-based line within the history (line 1 = Reset)
-		bad := remaining[idx]
-		events += first
-		rep.c.AddTraces(int64(idx))
-		fmt.Fprintf(os.Stderr, "  [tlc] ApqTrace rejects history %s at its line %d\n", bad.ID, local)
-		rep.reportRejection(bad, local, consts, filepath.Join(scratch, fmt.Sprintf("diag%d", diags)))
+		accepted += idx
+		rep.describeDrift(remaining[idx], local, consts, filepath.Join(scratch, fmt.Sprintf("diag%d", diags)))
 		diags++
 		remaining = remaining[idx+1:]
 	}
-	return events, nil
+	return accepted, 0, nil
 }
 
-// reportRejection asks the specification (ApqTraceDiag.cfg) what it
-// prescribes for the rejected line and reports the divergence.
-func (rep *reporter) reportRejection(h *history, local int, consts []byte, scratch string) {
-	stepIdx := local - 2 // index into h.Steps
+// describeDrift asks the implementation-level machine (ApqTraceDiag.cfg)
+// what it prescribes for the line it does not accept.
+func (rep *reporter) describeDrift(h *history, local int, consts []byte, scratch string) {
+	stepIdx := local - 2
 	if stepIdx < 0 || stepIdx >= len(h.Steps) {
-		rep.violate("B:rejected-reset", fmt.Sprintf("history %s rejected at line %d", h.ID, local), nil)
+		rep.drift("B:reset", fmt.Sprintf("history %s, line %d", h.ID, local))
 		return
 	}
 	st := h.Steps[stepIdx]
-	doc := replayDoc{Mechanism: fmt.Sprintf("B: recorded random history %s (%d client goroutines), in linearisation order", h.ID, h.Workers),
-		Rig: h.Rig, Texts: h.cc.Text, Hashes: h.cc.Hash, FailAt: stepIdx + 1}
-	for i := 0; i <= stepIdx; i++ {
-		s := h.Steps[i]
-		s.Want, s.WantT = s.Got.Out, s.Got.State // accepted prefix: specification = observation
-		doc.Steps = append(doc.Steps, s)
-	}
-	var want *struct {
-		L int    `json:"l"`
-		O AOut   `json:"o"`
-		T AState `json:"t"`
-	}
 	var buf bytes.Buffer
 	for _, ln := range h.lines()[:local] {
 		buf.Write(ln)
 		buf.WriteByte('\n')
 	}
+	key := "B:" + st.Req.form() + ":differs"
+	detail := fmt.Sprintf("cache=%s cap=%d, %d client goroutine(s), request %d of history %s: %s\nsent: %s %s%s\nreal server: %s",
+		h.Rig.Kind, h.Rig.Cap, h.Workers, stepIdx+1, h.ID, mustJSON(st.Req), st.Wire.Method, st.Wire.Query, st.Wire.Body, mustJSON(st.Got))
 	res, err := vlib.RunTLC(vlib.TLCOpts{Module: "ApqTrace", Config: "ApqTraceDiag.cfg", Workers: 1, DFS: true,
 		Data:    map[string][]byte{"trace.ndjson": buf.Bytes(), "consts.json": consts},
 		Scratch: scratch, Timeout: 5 * time.Minute})
@@ -336,23 +445,13 @@ func (rep *reporter) reportRejection(h *history, local int, consts []byte, scrat
 				T AState `json:"t"`
 			}
 			if json.Unmarshal([]byte(s), &w) == nil && w.L == local {
-				want = &w
+				w.T.norm()
+				key = "B:" + st.Req.form() + ":" + strings.Join(diff(w.O, w.T, *st.Got), "+")
+				detail += "\nimplementation-level machine: " + mustJSON(map[string]any{"outcome": w.O, "coarse_class": coarse(w.O.Class), "state_after": w.T})
 			}
 		}
 	}
-	key := "B:" + st.Req.form() + ":rejected"
-	detail := fmt.Sprintf("cache=%s cap=%d, %d client goroutine(s), request %d of history %s: %s\n  sent: %s %s%s\n  real server: %s",
-		h.Rig.Kind, h.Rig.Cap, h.Workers, stepIdx+1, h.ID, mustJSON(st.Req), st.Wire.Method, st.Wire.Query, st.Wire.Body, mustJSON(st.Got))
-	if want != nil {
-		want.T.norm()
-		d := diff(want.O, want.T, *st.Got)
-		key = "B:" + st.Req.form() + ":" + strings.Join(d, "+")
-		detail += fmt.Sprintf("\n  specification: %s", mustJSON(map[string]any{"outcome": want.O, "coarse_class": coarse(want.O.Class), "state_after": want.T}))
-		doc.Steps[stepIdx].Want, doc.Steps[stepIdx].WantT = want.O, want.T
-	} else {
-		detail += "\n  (the specification has no step at all for this request in this state)"
-	}
-	rep.violate(key, detail, doc)
+	rep.drift(key, detail)
 }
 
 func tailStr(s string, n int) string {
@@ -364,27 +463,20 @@ func tailStr(s string, n int) string {
 
 var errNoCandidate = fmt.Errorf("self-test: no history offers a line to corrupt")
 
-// selfTest demonstrates that the trace validation binds: a recorded history
-// with one corrupted cache entry, and one with a registering request
-// dropped, must both be rejected by TLC at the corrupted line.
+// selfTest demonstrates that the property-level validation binds: a recorded
+// history with (a) one cache entry bound to another text, (b) the request
+// that first sent and registered a pair removed from the record, must be
+// reported bad at exactly that line with exactly that rule (bound / register).
 func (rep *reporter) selfTest(h *history, scratch string) error {
 	lines := h.lines()
-	if len(lines) > 120 {
-		lines = lines[:120]
+	if len(lines) > 150 {
+		lines = lines[:150]
 	}
+	steps := h.Steps
 	corrupt, drop := -1, -1
-	type recLine struct {
-		Out  AOut        `json:"out"`
-		Ents [][2]string `json:"ents"`
-	}
-	recs := make([]recLine, len(lines))
-	for i := 1; i < len(lines); i++ {
-		if err := json.Unmarshal(lines[i], &recs[i]); err != nil {
-			return err
-		}
-	}
-	has := func(r recLine, k string) bool {
-		for _, e := range r.Ents {
+	sentSeen := map[[2]string]bool{}
+	has := func(st AState, k string) bool {
+		for _, e := range st.Ents {
 			if e[0] == k {
 				return true
 			}
@@ -392,32 +484,40 @@ func (rep *reporter) selfTest(h *history, scratch string) error {
 		return false
 	}
 	for i := 1; i < len(lines); i++ {
-		if corrupt < 0 && len(recs[i].Ents) > 0 {
+		st := steps[i-1]
+		if corrupt < 0 && len(st.Got.State.Ents) > 0 {
 			corrupt = i
 		}
-		// a request that newly registered k, followed by one that still sees k
-		// without registering it itself
-		if ops := recs[i].Out.Ops; drop < 0 && i+1 < len(lines) && len(ops) == 1 && ops[0].Op == "add" &&
-			!has(recs[i-1], ops[0].H) && has(recs[i+1], ops[0].H) {
-			if n := recs[i+1].Out.Ops; len(n) == 0 || n[0].Op != "add" || n[0].H != ops[0].H {
+		pair := [2]string{st.Req.Hash, st.Req.Text}
+		// a request that sent a correct pair for the first time and registered it,
+		// followed by one that still sees the entry
+		if drop < 0 && i+1 < len(lines) && st.Got.Chg && st.Req.Text != "" && st.Req.Hash == "h:"+st.Req.Text &&
+			!sentSeen[pair] && has(st.Got.State, st.Req.Hash) && has(steps[i].Got.State, st.Req.Hash) {
+			if nx := steps[i].Req; nx.Hash != st.Req.Hash || nx.Text != st.Req.Text {
 				drop = i
 			}
+		}
+		if st.Req.Text != "" && st.Req.Hash != none {
+			sentSeen[pair] = true
 		}
 	}
 	if corrupt < 0 || drop < 0 {
 		return errNoCandidate
 	}
-	run := func(name string, ls [][]byte, wantAt int) error {
-		res, err := vlib.RunTLC(vlib.TLCOpts{Module: "ApqTrace", Config: "ApqTrace.cfg", Workers: 1, DFS: true,
-			Data:    map[string][]byte{"trace.ndjson": append(bytes.Join(ls, []byte("\n")), '\n'), "consts.json": constsJSON()},
-			Scratch: filepath.Join(scratch, name), Timeout: 5 * time.Minute})
+	expect := func(name string, ls [][]byte, wantAt int, rule string) error {
+		bad, _, err := propRun(ls, filepath.Join(scratch, name))
 		if err != nil {
 			return err
 		}
-		if res.OK || res.RejectedAt != wantAt {
-			return fmt.Errorf("self-test %s: TLC should reject the corrupted trace at line %d (OK=%v, rejected at %d)\n%s", name, wantAt, res.OK, res.RejectedAt, tailStr(res.Output, 1500))
+		for _, b := range bad {
+			if b.Bad < wantAt {
+				return fmt.Errorf("self-test %s: line %d reported although only line %d was corrupted", name, b.Bad, wantAt)
+			}
+			if b.Bad == wantAt && !b.Rules[rule] {
+				return nil
+			}
 		}
-		return nil
+		return fmt.Errorf("self-test %s: the property-level validation does not report rule %q at the corrupted line %d (%d lines reported)", name, rule, wantAt, len(bad))
 	}
 	// (a) one cache entry bound to another text
 	var m map[string]any
@@ -433,10 +533,10 @@ func (rep *reporter) selfTest(h *history, scratch string) error {
 	bad, _ := json.Marshal(m)
 	a := append([][]byte{}, lines...)
 	a[corrupt] = bad
-	if err := run("self-corrupt", a, corrupt+1); err != nil {
+	if err := expect("self-corrupt", a, corrupt+1, "bound"); err != nil {
 		return err
 	}
-	// (b) the request that changed the cache is missing from the record
+	// (b) the request that sent and registered the pair is missing from the record
 	b := append(append([][]byte{}, lines[:drop]...), lines[drop+1:]...)
-	return run("self-drop", b, drop+1)
+	return expect("self-drop", b, drop+1, "register")
 }
